@@ -5,4 +5,6 @@ let table : (string * (z list -> z list)) list = [
   "c12", c12_entry;
   "c12_lin", c12_lin_entry;
   "m1c", m1c_entry;
+  "m1c_h", m1c_h_entry;
+  "m1s", m1s_entry;
 ]
